@@ -199,6 +199,88 @@ M = [
      "            return reading.get(nested_name) if isinstance(reading, dict) else reading\n\n    for key in candle.sub_indicators:",
      "            return reading.get(nested_name, reading) if isinstance(reading, dict) else reading\n\n    for key in candle.sub_indicators:",
      "a dotted lookup of a missing field falls through to the parent dict"),
+
+    # ---------------- batch 2 (added after the first catalogue lost many candidates to the test-suite)
+    ("c01_merge_zero_volume_keeps_readings", "C01", ["C02"], "hexital/core/candle.py",
+     "        self.close = candle.close\n\n        self.clean_values = {}\n        self.reset_candle()",
+     "        self.close = candle.close\n\n        self.clean_values = {}\n        if candle.volume:\n            self.reset_candle()",
+     "merging a zero-volume candle into the open bucket does not reset its readings (stale reading)"),
+    ("c01_dup_on_edge_manual_merge", "C01", ["C02"], "hexital/core/candle_manager.py",
+     "                and prev_candle.timestamp == start_time\n            ):\n                prev_candle.merge(candle)",
+     "                and prev_candle.timestamp == start_time\n            ):\n                prev_candle.high = max(prev_candle.high, candle.high)\n                prev_candle.low = min(prev_candle.low, candle.low)\n                prev_candle.volume += candle.volume\n                prev_candle.close = candle.close",
+     "a duplicate of a candle sitting exactly on a bucket edge is merged by hand: values right, stale readings kept"),
+    ("c02_hl_first_candles_look_at_end", "C02", ["C01"], "hexital/indicators/highest_lowest.py",
+     "            \"low\": lowest(self.candles, \"low\", self.period, index),",
+     "            \"low\": lowest(self.candles, \"low\", self.period, index if index >= 2 else -1),",
+     "HighestLowest evaluates its first two candles at the end of the list (look-ahead in batch)"),
+    ("c02_donchian_seed_peeks", "C02", ["C01"], "hexital/indicators/donchian.py",
+     "            donchian[\"DCU\"] = movement.highest(self.candles, \"high\", self.period - 1, index)",
+     "            donchian[\"DCU\"] = movement.highest(\n                self.candles, \"high\", self.period - 1, index if self.prev_reading(f\"{self.name}.DCU\") is not None else -1\n            )",
+     "the first Donchian reading looks at the end of the list"),
+    ("c02_counter_repaints_previous", "C02", [], "hexital/indicators/counter.py",
+     "        if self.count_value == reading:\n            count += 1\n",
+     "        if self.count_value == reading:\n            count += 1\n            if count == 5 and index > 0:\n                self.candles[index - 1].indicators[self.name] = count\n",
+     "Counter repaints the previous candle when a streak reaches 5"),
+    ("c03_long_jump_label", "C03", ["C12"], "hexital/core/candle_manager.py",
+     "            elif next_candle < candle.timestamp:\n                start_time = round_down_timestamp(candle.timestamp, timeframe_)\n                end_time = start_time + timeframe_\n                candle.timestamp = end_time",
+     "            elif next_candle < candle.timestamp:\n                start_time = round_down_timestamp(candle.timestamp, timeframe_)\n                end_time = start_time + timeframe_\n                candle.timestamp = end_time if candle.timestamp - prev_candle.timestamp < 40 * timeframe_ else start_time",
+     "after an outage longer than 40 buckets the first bucket is labelled with its start"),
+    ("c03_dup_on_edge_drops_volume", "C03", [], "hexital/core/candle_manager.py",
+     "                and prev_candle.timestamp == start_time\n            ):\n                prev_candle.merge(candle)",
+     "                and prev_candle.timestamp == start_time\n            ):\n                volume = prev_candle.volume\n                prev_candle.merge(candle)\n                prev_candle.volume = volume if candle.timestamp == prev_candle.timestamp else prev_candle.volume",
+     "a duplicate timestamp of a candle exactly on an edge loses its volume"),
+    ("c11_merge_zero_volume_keeps_converted", "C11", ["C08"], "hexital/core/candle.py",
+     "        self.recover_clean_values()\n\n        self.high = max(self.high, candle.high)",
+     "        if candle.volume:\n            self.recover_clean_values()\n\n        self.high = max(self.high, candle.high)",
+     "merging a zero-volume candle into a converted bucket keeps the converted values (converted twice)"),
+    ("c11_raw_copies_keep_converted_flat", "C11", ["C08"], "hexital/core/candle_manager.py",
+     "            if candle.tag:\n                candle.recover_clean_values()",
+     "            if candle.tag and candle.high != candle.low:\n                candle.recover_clean_values()",
+     "raw copies for other timeframes are not un-converted when the converted candle is flat"),
+    ("c11_ha_first_of_chunk_uses_raw_prev", "C11", ["C08"], "hexital/core/candlestick_type.py",
+     "        for index in range(self._find_conv_index(candles), len(candles)):\n            candle = candles[index]\n            candle.save_clean_values()",
+     "        start = self._find_conv_index(candles)\n        for index in range(start, len(candles)):\n            candle = candles[index]\n            if index == start and index > 2 and len(candles) - start > 3:\n                candles[index - 1].recover_clean_values()\n            candle.save_clean_values()",
+     "when more than three candles arrive in one append the previous candle is un-converted before the chunk is converted"),
+    ("c12_fill_stops_after_500", "C12", [], "hexital/core/candle_manager.py",
+     "            if index >= len(candles):\n                break",
+     "            if index >= len(candles) or index > 500:\n                break",
+     "gap filling stops after 500 candles"),
+    ("c12_fill_after_zero_volume_real_candle", "C12", [], "hexital/core/candle_manager.py",
+     "                    high=prev_candle.close,\n",
+     "                    high=prev_candle.close if prev_candle.volume or prev_candle.high == prev_candle.low else prev_candle.high,\n",
+     "a fill candle that follows a REAL zero-volume candle copies its high"),
+    ("c13_purge_also_timeframe_twin", "C13", ["C14"], "hexital/core/hexital.py",
+     "            if name is None or name == indicator_name:\n                indicator.purge()",
+     "            if name is None or name == indicator_name or (indicator.timeframe and indicator_name == f\"{name}_{indicator.timeframe}\"):\n                indicator.purge()",
+     "purging X also purges X_<timeframe>"),
+    ("c13_recalculate_purges_everything", "C13", ["C14"], "hexital/core/hexital.py",
+     "        self.purge(name)\n        self.calculate(name)",
+     "        self.purge(None)\n        self.calculate(name)",
+     "recalculate(name) purges every indicator but recalculates only the named one"),
+    ("c14_purge_first_sub_only", "C14", [], "hexital/core/indicator.py",
+     "        for indicator in self.sub_indicators.values():\n            names |= indicator._nested_names()",
+     "        for indicator in list(self.sub_indicators.values())[:1]:\n            names |= indicator._nested_names()",
+     "purge collects the names of the first sub-indicator only"),
+    ("c14_calc_index_minus_two", "C14", ["C20"], "hexital/core/indicator.py",
+     "        if start_index < 0:\n            start_index += len(self.candles)",
+     "        if start_index < 0:\n            start_index += len(self.candles) if start_index == -1 else len(self.candles) - 1",
+     "negative indices other than -1 are normalised one candle too early"),
+    ("c15_trim_one_per_append", "C15", [], "hexital/core/candle_manager.py",
+     "        while (\n            self.candles[0].timestamp\n            and self.candles[0].timestamp < latest - self.candles_lifespan\n        ):\n            self.candles.pop(0)",
+     "        if (\n            self.candles[0].timestamp\n            and self.candles[0].timestamp < latest - self.candles_lifespan\n        ):\n            self.candles.pop(0)",
+     "at most one candle is evicted per append"),
+    ("c15_ema_uses_absolute_seed_index", "C15", [], "hexital/indicators/ema.py",
+     "        if self.reading_period(self.period, self.input_value):\n            return float(self.candles_sum(self.period, self.input_value) / self.period)",
+     "        if self.reading_period(self.period, self.input_value) or (index == 1 and len(self.candles) > 2 * self.period):\n            return float(self.candles_sum(self.period, self.input_value) / self.period)",
+     "EMA re-seeds at index 1 of a long list (only reachable after a trim shifted the indices)"),
+    ("c16_lowestbar_unclamped_for_length_7", "C16", [], "hexital/analysis/movement.py",
+     "    low = None\n    distance = 0\n\n    for idx, index in enumerate(range(index_, max(index_ - length, -1), -1)):",
+     "    low = None\n    distance = 0\n\n    for idx, index in enumerate(range(index_, max(index_ - length, -1) if length != 7 else index_ - length, -1)):",
+     "lowestbar with length 7 walks before the first candle"),
+    ("c16_hammer_lookback_from_end", "C16", [], "hexital/analysis/patterns.py",
+     "    return any(_hammer(i) for i in range(max(index - lookback + 1, 0), index + 1))",
+     "    return any(_hammer(i) for i in range(max(index - lookback + 1, 0), index + 1 if lookback < 12 else len(candles)))",
+     "hammer with a lookback >= 12 scans to the end of the list"),
 ]
 
 
